@@ -426,11 +426,60 @@ def _dotted(node):
     return None
 
 
+def _normalise_locals(fn):
+    """rename the function-local names (everything bound inside the function: assignment / for / with-as /
+    except-as / comprehension targets; NOT the parameters) to v1, v2, ... in order of first binding, in place.
+    Returns the set of normalised names.  Attributes of self, module globals, parameters are untouched."""
+    params = {a.arg for a in fn.args.posonlyargs + fn.args.args + fn.args.kwonlyargs}
+    if fn.args.vararg:
+        params.add(fn.args.vararg.arg)
+    if fn.args.kwarg:
+        params.add(fn.args.kwarg.arg)
+    order = []
+    declared = set()
+
+    class Collect(ast.NodeVisitor):
+        def visit_Global(self, node):
+            declared.update(node.names)
+
+        visit_Nonlocal = visit_Global
+
+        def visit_Name(self, node):
+            if isinstance(node.ctx, ast.Store) and node.id not in params and node.id not in order:
+                order.append(node.id)
+
+        def visit_ExceptHandler(self, node):
+            if node.name and node.name not in params and node.name not in order:
+                order.append(node.name)
+            self.generic_visit(node)
+
+    for st in fn.body:
+        Collect().visit(st)
+    mapping = {n: "v%d" % (i + 1) for i, n in enumerate(x for x in order if x not in declared)}
+
+    class Rename(ast.NodeTransformer):
+        def visit_Name(self, node):
+            if node.id in mapping:
+                node.id = mapping[node.id]
+            return node
+
+        def visit_ExceptHandler(self, node):
+            if node.name in mapping:
+                node.name = mapping[node.name]
+            self.generic_visit(node)
+            return node
+
+    for st in fn.body:
+        Rename().visit(st)
+    return set(mapping.values())
+
+
 class _Shape(ast.NodeVisitor):
     """emits tokens in evaluation order"""
 
-    def __init__(self):
+    def __init__(self, locals_=()):
         self.out = []
+        self.locals = set(locals_)
 
     def expr(self, node):
         """tokens of an expression: calls through self / the buffers, reads of tracked attributes"""
@@ -444,7 +493,8 @@ class _Shape(ast.NodeVisitor):
                 self.expr(k.value)
             if isinstance(node.func, ast.Attribute):
                 self.expr(node.func.value)
-            if name and (name.startswith("self.") or name.startswith("outbuf") or name.startswith("toclose")) \
+            root = name.split(".")[0].split("[")[0] if name else None
+            if name and (name.startswith("self.") or (root in self.locals and "." in name)) \
                     and ".logger." not in name:
                 kws = ",".join("%s=%s" % (k.arg, ast.unparse(k.value)) for k in node.keywords)
                 pos = ",".join(ast.unparse(a) for a in node.args
@@ -487,6 +537,10 @@ class _Shape(ast.NodeVisitor):
                 o.append("let:%s=%s" % (",".join(t.id for t in st.targets), ast.unparse(st.value)))
             for t in st.targets:
                 self.target(t)
+        elif isinstance(st, ast.AnnAssign):
+            # "x: T = e" is "x = e"; a bare annotation is nothing
+            if st.value is not None:
+                self.stmt(ast.Assign(targets=[st.target], value=st.value))
         elif isinstance(st, ast.AugAssign):
             if isinstance(st.target, ast.Attribute) and isinstance(st.target.value, ast.Name) \
                     and st.target.value.id == "self" and st.target.attr in _SELF_ATTRS:
@@ -565,7 +619,7 @@ def method_shapes(src_dir):
             if isinstance(node, ast.ClassDef) and node.name == cls:
                 for f in node.body:
                     if isinstance(f, ast.FunctionDef) and f.name in names:
-                        v = _Shape()
+                        v = _Shape(_normalise_locals(f))
                         v.block(f.body)
                         sig = "(" + ",".join(a.arg + ("=" + ast.unparse(d) if d is not None else "")
                                              for a, d in zip(f.args.args, [None] * (len(f.args.args) - len(f.args.defaults)) + list(f.args.defaults))) + ")"
@@ -604,7 +658,7 @@ EXPECTED_SHAPE = {'HTTPChannel._flush_exception': ['(self,flush,do_close=True)',
                                                      'return',
                                                      '}',
                                                      'call:self._flush_exception(self._flush_some,do_close=False)',
-                                                     'if(exception){',
+                                                     'if(v2){',
                                                      'call:self.server.pull_trigger()',
                                                      'call:self.outbuf_lock.wait()',
                                                      'return',
@@ -618,21 +672,21 @@ EXPECTED_SHAPE = {'HTTPChannel._flush_exception': ['(self,flush,do_close=True)',
                                                      '}',
                                                      '}'],
  'HTTPChannel._flush_some': ['(self,do_close=True)',
-                             'let:sent=0',
-                             'let:dobreak=False',
+                             'let:v1=0',
+                             'let:v2=False',
                              'while(True){',
                              'R:outbufs',
-                             'call:outbuf.__len__()',
-                             'while(outbuflen > 0){',
-                             'call:outbuf.get()',
+                             'call:v3.__len__()',
+                             'while(v4 > 0){',
+                             'call:v3.get()',
                              'call:self.send(do_close=do_close)',
-                             'if(num_sent){',
-                             'call:outbuf.skip(True)',
+                             'if(v6){',
+                             'call:v3.skip(True)',
                              'R:total_outbufs_len',
                              'W:total_outbufs_len(Sub)',
                              '}',
                              'else{',
-                             'let:dobreak=True',
+                             'let:v2=True',
                              'break',
                              '}',
                              '}',
@@ -642,20 +696,20 @@ EXPECTED_SHAPE = {'HTTPChannel._flush_exception': ['(self,flush,do_close=True)',
                              'R:outbufs',
                              'call:self.outbufs.pop(0)',
                              'try{',
-                             'call:toclose.close()',
+                             'call:v7.close()',
                              '}',
                              'except(Exception){',
                              '}',
                              '}',
                              'else{',
-                             'let:dobreak=True',
+                             'let:v2=True',
                              '}',
                              '}',
-                             'if(dobreak){',
+                             'if(v2){',
                              'break',
                              '}',
                              '}',
-                             'if(sent){',
+                             'if(v1){',
                              'return',
                              '}',
                              'return'],
@@ -678,7 +732,7 @@ EXPECTED_SHAPE = {'HTTPChannel._flush_exception': ['(self,flush,do_close=True)',
                               'for(self.outbufs){',
                               'R:outbufs',
                               'try{',
-                              'call:outbuf.close()',
+                              'call:v1.close()',
                               '}',
                               'except(Exception){',
                               '}',
@@ -696,7 +750,7 @@ EXPECTED_SHAPE = {'HTTPChannel._flush_exception': ['(self,flush,do_close=True)',
                              'call:self.handle_close()',
                              'return',
                              '}',
-                             'if(data){',
+                             'if(v1){',
                              'call:self.received()',
                              '}',
                              'else{',
@@ -705,16 +759,16 @@ EXPECTED_SHAPE = {'HTTPChannel._flush_exception': ['(self,flush,do_close=True)',
  'HTTPChannel.handle_write': ['(self)',
                               'if(not self.requests){',
                               'R:requests',
-                              'let:flush=self._flush_some_if_lockable',
+                              'let:v1=self._flush_some_if_lockable',
                               '}',
                               'else{',
                               'if(self.total_outbufs_len >= self.adj.send_bytes or self.total_outbufs_len > self.adj.outbuf_high_watermark){',
                               'R:total_outbufs_len',
                               'R:total_outbufs_len',
-                              'let:flush=self._flush_some_if_lockable',
+                              'let:v1=self._flush_some_if_lockable',
                               '}',
                               'else{',
-                              'let:flush=None',
+                              'let:v1=None',
                               '}',
                               '}',
                               'call:self._flush_exception()',
@@ -758,7 +812,7 @@ EXPECTED_SHAPE = {'HTTPChannel._flush_exception': ['(self,flush,do_close=True)',
                           '}',
                           '}',
                           '}',
-                          'if(n >= len(data)){',
+                          'if(v1 >= len(data)){',
                           'break',
                           '}',
                           '}',
@@ -766,7 +820,7 @@ EXPECTED_SHAPE = {'HTTPChannel._flush_exception': ['(self,flush,do_close=True)',
                           'return'],
  'HTTPChannel.service': ['(self)',
                          'R:requests',
-                         'if(request.error){',
+                         'if(v1.error){',
                          'call:self.error_task_class()',
                          '}',
                          'else{',
@@ -776,6 +830,7 @@ EXPECTED_SHAPE = {'HTTPChannel._flush_exception': ['(self,flush,do_close=True)',
                          'if(self.connected and (not self.will_close)){',
                          'R:connected',
                          'R:will_close',
+                         'call:v2.service()',
                          '}',
                          'else{',
                          '}',
@@ -783,11 +838,11 @@ EXPECTED_SHAPE = {'HTTPChannel._flush_exception': ['(self,flush,do_close=True)',
                          'except(ClientDisconnected){',
                          '}',
                          'except(BaseException){',
-                         'if(not task.wrote_header){',
+                         'if(not v2.wrote_header){',
                          'if(self.adj.expose_tracebacks){',
                          '}',
                          'else{',
-                         "let:body='The server encountered an unexpected internal server error'",
+                         "let:v3='The server encountered an unexpected internal server error'",
                          '}',
                          'call:self.parser_class()',
                          'try{',
@@ -797,6 +852,7 @@ EXPECTED_SHAPE = {'HTTPChannel._flush_exception': ['(self,flush,do_close=True)',
                          '}',
                          'call:self.error_task_class()',
                          'try{',
+                         'call:v2.service()',
                          '}',
                          'except(ClientDisconnected){',
                          '}',
@@ -804,11 +860,12 @@ EXPECTED_SHAPE = {'HTTPChannel._flush_exception': ['(self,flush,do_close=True)',
                          'else{',
                          '}',
                          '}',
-                         'if(task.close_on_finish){',
+                         'if(v2.close_on_finish){',
                          'with(self.requests_lock){',
                          'W:close_when_flushed',
                          'for(self.requests){',
                          'R:requests',
+                         'call:v1.close()',
                          '}',
                          'W:requests',
                          '}',
@@ -820,6 +877,7 @@ EXPECTED_SHAPE = {'HTTPChannel._flush_exception': ['(self,flush,do_close=True)',
                          '}',
                          'if(self.current_outbuf_count > 0){',
                          '}',
+                         'call:v1.close()',
                          'with(self.requests_lock){',
                          'R:requests',
                          'call:self.requests.pop(0)',
@@ -873,7 +931,7 @@ EXPECTED_SHAPE = {'HTTPChannel._flush_exception': ['(self,flush,do_close=True)',
                             'if(self.total_outbufs_len >= self.adj.send_bytes){',
                             'R:total_outbufs_len',
                             'call:self._flush_exception(self._flush_some,do_close=False)',
-                            'if(exception or not flushed or self.total_outbufs_len >= self.adj.send_bytes){',
+                            'if(v4 or not v3 or self.total_outbufs_len >= self.adj.send_bytes){',
                             'R:total_outbufs_len',
                             'call:self.server.pull_trigger()',
                             '}',
@@ -890,7 +948,7 @@ EXPECTED_SHAPE = {'HTTPChannel._flush_exception': ['(self,flush,do_close=True)',
                       'call:self.socket.close()',
                       '}',
                       'except(OSError){',
-                      'if(why.args[0] not in (ENOTCONN, EBADF)){',
+                      'if(v1.args[0] not in (ENOTCONN, EBADF)){',
                       'raise()',
                       '}',
                       '}',
@@ -898,7 +956,7 @@ EXPECTED_SHAPE = {'HTTPChannel._flush_exception': ['(self,flush,do_close=True)',
  'dispatcher.recv': ['(self,buffer_size)',
                      'try{',
                      'call:self.socket.recv()',
-                     'if(not data){',
+                     'if(not v1){',
                      'call:self.handle_close()',
                      'return',
                      '}',
@@ -907,7 +965,7 @@ EXPECTED_SHAPE = {'HTTPChannel._flush_exception': ['(self,flush,do_close=True)',
                      '}',
                      '}',
                      'except(OSError){',
-                     'if(why.args[0] in _DISCONNECTED){',
+                     'if(v2.args[0] in _DISCONNECTED){',
                      'call:self.handle_close()',
                      'return',
                      '}',
@@ -921,11 +979,11 @@ EXPECTED_SHAPE = {'HTTPChannel._flush_exception': ['(self,flush,do_close=True)',
                      'return',
                      '}',
                      'except(OSError){',
-                     'if(why.args[0] == EWOULDBLOCK){',
+                     'if(v2.args[0] == EWOULDBLOCK){',
                      'return',
                      '}',
                      'else{',
-                     'if(why.args[0] in _DISCONNECTED){',
+                     'if(v2.args[0] in _DISCONNECTED){',
                      'if(do_close){',
                      'call:self.handle_close()',
                      '}',
